@@ -162,7 +162,7 @@ impl<T, E> Poll<Result<T, E>> {
 // the grpc-web image of a gRPC response head + body
 pub open spec fn web_response<B>(out: Response<Body>, res: Response<B>, accept: Encoding) -> bool {
     &&& out.status == res.status && out.version == res.version && out.extensions == res.extensions
-    &&& out.headers@ == res.headers@.insert("content-type"@, seq![ascii_bytes(if accept == Encoding::Base64 { "application/grpc-web-text+proto"@ } else { "application/grpc-web+proto"@ })])
+    &&& out.headers@ =~= res.headers@.insert("content-type"@, seq![ascii_bytes(if accept == Encoding::Base64 { "application/grpc-web-text+proto"@ } else { "application/grpc-web+proto"@ })])
     &&& wraps_adapter(out.body, res.body, Direction::Encode, accept)
 }
 pub open spec fn same_response<B>(out: Response<Body>, res: Response<B>) -> bool {
@@ -242,12 +242,12 @@ def build():
 
     u.exec_const('tonic/src/metadata/mod.rs', 'GRPC_CONTENT_TYPE', ensures=[Clause('is_application_grpc', 'GRPC_CONTENT_TYPE@ == ascii_bytes("application/grpc"@)')], indent='')
     nowhere = [lambda t: t.sub_code('R12', r'\bwhere\s+B: http_body::Body[^{]*', '')]
-    u.fn(S, 'coerce_request', sig_edits=nowhere,
+    u.fn(S, 'coerce_request', sig_edits=nowhere, body_start='    proof { lemma_coerced_names_distinct(); }',
          closures={0: dict(params='b: B', ret='(o: Body)', ensures=['wraps_adapter(o, b, Direction::Decode, encoding)'])},
          ensures=[
              Clause('Q1_request_line_and_extensions_untouched', 'r.method == req.method && r.uri == req.uri && r.version == req.version && r.extensions == req.extensions'),
              Clause('Q2_grpc_content_type_te_trailers_everything_else_kept',
-                    '''r.headers@ == req.headers@.remove("content-length"@).insert("content-type"@, seq![ascii_bytes("application/grpc"@)])
+                    '''r.headers@ =~= req.headers@.remove("content-length"@).insert("content-type"@, seq![ascii_bytes("application/grpc"@)])
                         .insert("te"@, seq![ascii_bytes("trailers"@)]).insert("accept-encoding"@, seq![ascii_bytes("identity,deflate,gzip"@)])'''),
              Clause('Q3_body_is_the_original_body_behind_the_decoding_adapter', 'wraps_adapter(r.body, req.body, Direction::Decode, encoding)'),
          ])
@@ -256,7 +256,7 @@ def build():
          ensures=[
              Clause('P1_status_version_extensions_untouched', 'r.status == res.status && r.version == res.version && r.extensions == res.extensions'),
              Clause('P2_content_type_is_the_accepted_grpc_web_flavour_other_headers_kept',
-                    'r.headers@ == res.headers@.insert("content-type"@, seq![ascii_bytes(if encoding == Encoding::Base64 { "application/grpc-web-text+proto"@ } else { "application/grpc-web+proto"@ })])'),
+                    'r.headers@ =~= res.headers@.insert("content-type"@, seq![ascii_bytes(if encoding == Encoding::Base64 { "application/grpc-web-text+proto"@ } else { "application/grpc-web+proto"@ })])'),
              Clause('P3_body_is_the_original_body_behind_the_encoding_adapter', 'wraps_adapter(r.body, res.body, Direction::Encode, encoding)'),
          ])
 
@@ -334,7 +334,7 @@ pub proof fn lemma_grpc_web_is_visible_text()
 pub open spec fn client_request_image<B>(q: Request<GrpcWebCall<B>>, req: Request<B>) -> bool {
     &&& q.method == req.method && q.uri == req.uri && q.extensions == req.extensions
     &&& q.version == (if req.version == Version::HTTP_2 { Version::HTTP_11 } else { req.version })
-    &&& q.headers@ == req.headers@.insert("content-type"@, seq![ascii_bytes("application/grpc-web"@)])
+    &&& q.headers@ =~= req.headers@.insert("content-type"@, seq![ascii_bytes("application/grpc-web"@)])
     &&& adapter(q.body, req.body, Direction::Encode, Encoding::None, true)
 }
 pub mod client {
